@@ -142,11 +142,17 @@ func (f *frame) doCall(c *ssa.CallCommon, pos token.Pos, site ssa.Instruction) [
 			f.noteEvent("call", full, args, rs)
 			return rs
 		}
+		if isAssumedPure(normName(c.Method.FullName())) && sig.Results().Len() == 1 {
+			vc.trust("observer method assumed to be a pure function of its receiver: " + normName(c.Method.FullName()))
+			rs := []Term{f.observer(c.Method, recv)}
+			f.noteEvent("call", full, args, rs)
+			return rs
+		}
 		if rs, ok := f.devirtualise(c, recv, pos); ok {
 			f.noteEvent("call", full, args, rs)
 			return rs
 		}
-		rs := f.havocCall(nil, sig, c.Args, true)
+		rs := f.havocInvoke(c, sig)
 		f.noteEvent("call", full, args, rs)
 		return rs
 	}
@@ -162,7 +168,7 @@ func (f *frame) doCall(c *ssa.CallCommon, pos token.Pos, site ssa.Instruction) [
 		}
 		fv := f.val(c.Value)
 		f.oblige("nil", pos, mkNot(mkEq(fv, i64(0))))
-		if _, ok := assumedPure[valueName(c.Value)]; ok {
+		if ok := isAssumedPure(valueName(c.Value)); ok {
 			vc.trust("callback assumed pure: " + valueName(c.Value))
 			n := sig.Results().Len()
 			rs := make([]Term, n)
@@ -501,6 +507,21 @@ func (f *frame) builtin(b *ssa.Builtin, c *ssa.CallCommon, pos token.Pos) []Term
 	case "close":
 		return nil
 	case "clear":
+		if mt, ok := c.Args[0].Type().Underlying().(*types.Map); ok {
+			m := f.val(c.Args[0])
+			dn, _, nn, ds, _, ns, ks, _ := f.mapHeaps(mt)
+			D := f.st.get(dn, ds)
+			N := f.st.get(nn, ns)
+			empty := Term{"((as const " + string(arraySort(ks, SBool)) + ") false)", arraySort(ks, SBool)}
+			f.st.set(dn, vc.define(dn, mkIte(mkEq(m, i64(0)), D, mkStore(D, m, empty))))
+			f.st.set(nn, vc.define(nn, mkIte(mkEq(m, i64(0)), N, mkStore(N, m, i64(0)))))
+			return nil
+		}
+		if sl, ok := c.Args[0].Type().Underlying().(*types.Slice); ok {
+			s := f.val(c.Args[0])
+			f.zeroRange(slObj(s), slOff(s), slLen(s), sl.Elem())
+			return nil
+		}
 		f.st = vc.havocAll(f.st)
 		return nil
 	case "ssa:wrapnilchk":
@@ -762,7 +783,7 @@ func (f *frame) devirtualise(c *ssa.CallCommon, recv Term, pos token.Pos) ([]Ter
 			return f.callConcrete(im.fn, rv, c, pos)
 		})
 	}
-	rs := f.switchExec(conds, bodies, func() []Term { return f.havocCall(nil, sig, c.Args, true) }, rts)
+	rs := f.switchExec(conds, bodies, func() []Term { return f.havocInvoke(c, sig) }, rts)
 	return rs, true
 }
 
@@ -796,4 +817,51 @@ func (f *frame) callConcrete(fn *ssa.Function, recv Term, c *ssa.CallCommon, pos
 		rs[i] = f.freshOf("ret", target.Signature.Results().At(i).Type())
 	}
 	return rs
+}
+
+// havocInvoke models an interface call by the union of the write sets of its in-repo implementations.
+func (f *frame) havocInvoke(c *ssa.CallCommon, sig *types.Signature) []Term {
+	vc := f.vc
+	iface, ok := c.Value.Type().Underlying().(*types.Interface)
+	if !ok {
+		return f.havocCall(nil, sig, c.Args, true)
+	}
+	impls := vc.P.implementations(iface, c.Method)
+	if len(impls) == 0 {
+		return f.havocCall(nil, sig, c.Args, true)
+	}
+	mods := map[string]bool{}
+	for _, im := range impls {
+		for k := range vc.P.modSet(im.fn) {
+			mods[k] = true
+		}
+	}
+	vc.trust("interface calls write at most what the in-repo implementations of the method write (implementations outside the repository are assumed to stay within that frame)")
+	if mods["*"] {
+		f.st = vc.havocAll(f.st)
+	} else if len(mods) > 0 {
+		for k := range mods {
+			vc.noteWrite(k)
+		}
+		f.st = vc.havocSome(f.st, mods)
+	}
+	n := sig.Results().Len()
+	rs := make([]Term, n)
+	for i := 0; i < n; i++ {
+		rs[i] = f.freshOf("ret", sig.Results().At(i).Type())
+	}
+	return rs
+}
+
+// observer applies the uninterpreted function standing for a pure interface method to its receiver.
+func (f *frame) observer(m *types.Func, recv Term) Term {
+	vc := f.vc
+	sig := m.Type().(*types.Signature)
+	rs := f.tt().sortOf(sig.Results().At(0).Type())
+	name := sym("obs$" + normName(m.FullName()))
+	if !vc.declared[name] {
+		vc.declared[name] = true
+		vc.items = append(vc.items, Item{kind: itDecl, text: fmt.Sprintf("(declare-fun %s (Iface) %s)", name, rs)})
+	}
+	return app(name, rs, recv)
 }
